@@ -11,15 +11,16 @@ use crate::val::Val;
 use crate::world::{self, CbFault};
 use bpaf::OptionParser;
 
-/// Step budget per operation (T5). Measured on the unchanged tree over 10^6 runs: an operation
-/// on a command line of L = (bytes + items + 8) costs at most 13.3 * L^2 ticks (the 2 KiB
-/// clusters are quadratic because every repetition clones the consumption ledger), at most 5 800
-/// ticks when L < 200, and documentation rendering at most 5 100. The budget is 10^7 + 300 * L^2:
-/// more than 1000 times the worst ordinary command line and more than 20 times the worst
-/// quadratic coefficient, so a legitimate slow parse cannot trip it, while an operation that
-/// stops making progress is reported after at most ~1.3 * 10^9 steps instead of hanging.
-pub const BUDGET_BASE: u64 = 10_000_000;
-pub const BUDGET_PER_L2: u64 = 300;
+/// Step budget per operation (T5). Measured on the unchanged tree (quick and thorough tiers,
+/// numbers in the evidence file): an operation on a command line of L = (bytes + items + 8)
+/// costs at most ~25 * L^2 ticks (the 2 KiB clusters are quadratic because every repetition
+/// clones the consumption ledger), at most ~40 000 ticks when L < 200, and documentation
+/// rendering at most ~5 000. The budget is 5*10^7 + 2000 * L^2: more than 1000 times the worst
+/// ordinary command line and about 80 times the worst quadratic coefficient, so a legitimate
+/// slow parse cannot trip it, while an operation that stops making progress is reported after a
+/// bounded number of steps instead of hanging the check.
+pub const BUDGET_BASE: u64 = 50_000_000;
+pub const BUDGET_PER_L2: u64 = 2000;
 
 pub fn budget_for(op: &Op) -> u64 {
     match op {
